@@ -178,6 +178,11 @@ def run(eng, R):
     if n_log < 3:
         raise AnalysisError("get_compact_representation: digit computations not found")
 
+    # a reloaded fit shows its numbers under the right names: positional mappings keep their order in the file
+    from .c09 import check_order_carrying
+
+    check_order_carrying(eng, R, "T-live")
+
     # ------------------------------------------------------------------ H-dec
     SF = "kafe2.fit._base.format:ScalarFormatter"
     f = get_func(p, SF, "__init__")
